@@ -29,9 +29,10 @@ class Check(PropCheck):
                     ops.append('m_get %s %s' % (vf.enc_str(a), vf.enc_str(b)))
             ops.append('m_get %s %s' % (vf.enc_str('nope'), vf.enc_str(taxa[0] if taxa else 'q')))
             # overwrite a few pairs, re-read everything
-            for _ in range(min(6, cells)):
+            for q in range(min(6, cells)):
                 a, b = rng.sample(taxa, 2)
-                ops.append('m_set %s %s %s' % (vf.enc_str(a), vf.enc_str(b), vf.enc_len(float(rng.randint(1000, 2000)) / 4)))
+                v = [float(rng.randint(1000, 2000)) / 4, 0.0, -0.0][q % 3]
+                ops.append('m_set %s %s %s' % (vf.enc_str(a), vf.enc_str(b), vf.enc_len(v)))
             if taxa:
                 ops.append('m_set %s %s %s' % (vf.enc_str(taxa[0]), vf.enc_str(taxa[0]), vf.enc_len(0.0)))
                 ops.append('m_set %s %s %s' % (vf.enc_str(taxa[0]), vf.enc_str(taxa[0]), vf.enc_len(1.0)))
@@ -39,6 +40,15 @@ class Check(PropCheck):
             for a in taxa[:12]:
                 for b in taxa[:12]:
                     ops.append('m_get %s %s' % (vf.enc_str(a), vf.enc_str(b)))
+            if n >= 2:
+                # second set_taxa with the same names in another order: by-name access must follow the new positions
+                perm = list(taxa); rng.shuffle(perm)
+                ops.append('m_set_taxa ' + ' '.join(vf.enc_str(x) for x in perm))
+                ops += ['m_dump', 'm_to_map', 'm_min', 'm_max', 'm_indexed']
+                for a in perm[:10]:
+                    for b in perm[:10]:
+                        ops.append('m_get %s %s' % (vf.enc_str(a), vf.enc_str(b)))
+                ops.append('m_taxa_index %s' % vf.enc_str(perm[0]))
             cases.append(Case('n%d' % n, ops, {'n': n}))
         # hook: index functions on big indices against the model (N arithmetic)
         ops = []
@@ -98,6 +108,8 @@ class Check(PropCheck):
                 table = {}
             elif a[0] == 'm_dump' and l[0] == 'ok':
                 pass
+            elif a[0] == 'm_set_taxa':
+                break
             elif a[0] == 'm_set' and l[0] == 'ok':
                 x, y = vf.dec_str(a[1]), vf.dec_str(a[2])
                 if x != y:
